@@ -121,6 +121,38 @@ def run (sys : Sys) (failS failT : Comp → Bool) : Outcome :=
   let t := serviceShutdown sys failT
   { starts := s, startOk := allOk s, stops := t, stopOk := allOk t }
 
+/-! ## `Service.Start` with its notification hooks
+
+`Service.Start` = `Extensions.Start`; `NotifyConfig` (every `ConfigWatcher` extension is called, the errors are
+collected, any error aborts); `Pipelines.StartAll`; `NotifyPipelineReady` (`PipelineWatcher.Ready`, returns at the
+first error).  `Start` can therefore fail although no component's `Start` failed.  `failN` / `failR` say which
+extension's `NotifyConfig` / `Ready` returns an error (every test extension implements both interfaces). -/
+
+structure StartTrace where
+  exts : List (Comp × Bool)
+  /-- `NotifyConfig` calls -/
+  notifies : List (Nat × Bool)
+  graph : List (Comp × Bool)
+  /-- `Ready` calls -/
+  readies : List (Nat × Bool)
+  ok : Bool
+deriving Repr
+
+/-- `for … { if err := Ready(); err != nil { return err } }` -/
+def runUntil (fail : Nat → Bool) : List Nat → List (Nat × Bool)
+  | [] => []
+  | e :: rest => if fail e then [(e, false)] else (e, true) :: runUntil fail rest
+
+def serviceStartH (sys : Sys) (failS : Comp → Bool) (failN failR : Nat → Bool) : StartTrace :=
+  let l1 := extStart sys failS
+  if !(allOk l1) then { exts := l1, notifies := [], graph := [], readies := [], ok := false } else
+  let ns := sys.eorder.map (fun e => (e, !(failN e)))
+  if !(ns.all (·.2)) then { exts := l1, notifies := ns, graph := [], readies := [], ok := false } else
+  let l2 := graphStart sys failS
+  if !(allOk l2) then { exts := l1, notifies := ns, graph := l2, readies := [], ok := false } else
+  let rs := runUntil failR sys.eorder
+  { exts := l1, notifies := ns, graph := l2, readies := rs, ok := rs.all (·.2) }
+
 /-! ## `service.New` and the collector around it -/
 
 inductive NewErr
@@ -186,6 +218,11 @@ def beforeB {α : Type} [DecidableEq α] (l : List α) (x y : α) : Bool :=
 def nodupB {α : Type} [DecidableEq α] : List α → Bool
   | [] => true
   | a :: l => !(decide (a ∈ l)) && nodupB l
+
+/-- executable test for `IsTopo` (used for examples and by the driver on observed orders) -/
+def isTopoB {α : Type} [DecidableEq α] (ns : List α) (E : List (α × α)) (order : List α) : Bool :=
+  nodupB order && order.all (fun n => decide (n ∈ ns)) && ns.all (fun n => decide (n ∈ order)) &&
+    E.all (fun e => beforeB order e.1 e.2)
 
 def isNodeC : Comp → Bool
   | .node _ => true
@@ -277,5 +314,30 @@ def Shared.runCalls (s : Shared) : List Call → List Call
     match (s.step c).2 with
     | some i => i :: (s.step c).1.runCalls rest
     | none => (s.step c).1.runCalls rest
+
+/-! ## instances of a component built on `sharedcomponent`: where the inner `Start` / `Shutdown` happen -/
+
+/-- one shared component: its inner component and the graph nodes that are its instances -/
+structure Group where
+  inner : Comp
+  insts : List Comp
+deriving Repr
+
+/-- walk a start (or stop) log and insert, after the instance call that triggers it, the call on the inner
+component: each instance call reaches the `sharedcomponent` wrapper (unless `skip`: the test wrapper's own injected
+failure returns before it) and goes through `Shared.step`; `innerOk` is the inner call's own result -/
+def withInner (call : Call) (groups : List Group) (skip : Comp → Bool) (innerOk : Comp → Bool) :
+    List (Group × Shared) → List (Comp × Bool) → List (Comp × Bool)
+  | _, [] => []
+  | st, (c, ok) :: rest =>
+    match st.find? (fun gs => gs.1.insts.contains c) with
+    | some (g, sh) =>
+      if skip c then (c, ok) :: withInner call groups skip innerOk st rest else
+      let (sh', ev) := sh.step call
+      let st' := st.map (fun (gs : Group × Shared) => if gs.1.inner == g.inner then (gs.1, sh') else gs)
+      match ev with
+      | some _ => (c, ok) :: (g.inner, innerOk g.inner) :: withInner call groups skip innerOk st' rest
+      | none => (c, ok) :: withInner call groups skip innerOk st' rest
+    | none => (c, ok) :: withInner call groups skip innerOk st rest
 
 end OtelVerif.C10
